@@ -1,37 +1,77 @@
 (** C13 - Descriptor-driven decoding yields JSON equal to the typed decode.
     The model (Descriptor.v) transcribes Descriptor.read and is compared with
-    the implementation call for call (Outputter events).  Theorems proved so
-    far cover the scalar leaves; the composite cases are decided by the
-    correspondence and the native JSON comparison (see DESIGN.md, C13). *)
-From Plenc Require Import Base Varint Wire JsonAny Codec Descriptor DescProofs.
+    the implementation call for call (Outputter events).
+
+    Proved here, for every codec tree of the fragment [walk_ok] - structs
+    nested to any depth, pointers, packed and counted slices, and the scalar
+    leaves bool / int / uint / 64-bit flat int / float32 / float64 / string /
+    bytes / time - and every well-typed value: walking Marshal's output with the
+    type's Descriptor consumes it exactly and emits precisely the Outputter calls
+    of the value ([vev]); fed to a new JSON outputter these calls render the
+    value's image in the JSON data model ([vtree]: structs as objects keyed by
+    field name with omitted fields absent, slices as arrays element for element
+    - empty elements included -, pointers as their target).  PARTIAL: maps,
+    the null.* wrappers, narrow `flat` integers (finding D17d), the protobuf
+    forms (findings D29 / D31) and the restored-descriptor variants are decided
+    by the correspondence and the native comparison only; JSON-any values are
+    covered by C16's theorems.  How numbers, booleans and times are printed is
+    strconv's / time's business ([tok]). *)
+From Plenc Require Import Base Varint Wire JsonAny Codec SizeProofs RoundTripBase RoundTrip
+  Descriptor DescProofs Output JsonWalk WalkProofs.
 Open Scope N_scope.
 
-Theorem C13_walk_int_partial : forall b z d, descriptor_of (CInt b) = Ok d -> int64_ok z ->
-  walk d (enc (CInt b) (VInt z) []) = wok [EvInt z] (len (append_varint z)).
-Proof. exact walk_int. Qed.
-Print Assumptions C13_walk_int_partial.
+(** the walk of a codec's own encoding, in the form its wire type calls for:
+    exactly the body for length-delimited codecs, the body followed by anything
+    for self-delimiting ones *)
+Theorem C13_walk_partial : forall c, walk_ok c -> forall v d,
+  descriptor_of c = Ok d -> wfv c v -> fits c v -> wkv c v ->
+  (wire c = WTLength -> walk d (enc c v []) = wok (vev c v) (len (enc c v []))) /\
+  (wire c <> WTLength -> forall more, walk d (enc c v [] ++ more) = wok (vev c v) (len (enc c v []))).
+Proof. exact walk_enc. Qed.
+Print Assumptions C13_walk_partial.
 
-Theorem C13_walk_uint_partial : forall b u d, descriptor_of (CUint b) = Ok d -> u < two64 ->
-  walk d (enc (CUint b) (VInt (Z.of_N u)) []) = wok [EvUint u] (len (append_varuint u)).
-Proof. exact walk_uint. Qed.
-Print Assumptions C13_walk_uint_partial.
+(** the emitted calls are those of the value's JSON-data-model image *)
+Theorem C13_calls_are_image_partial : forall (tok : ev -> bytes) c, walk_ok c -> forall v, wfv c v ->
+  map (oop_of tok) (vev c v) = ops_of (vtree tok c v).
+Proof. exact vev_ops. Qed.
+Print Assumptions C13_calls_are_image_partial.
 
-Theorem C13_walk_string_partial : forall s d, descriptor_of CString = Ok d ->
-  walk d (enc CString (VStr s) []) = wok [EvStr s] (len s).
-Proof. exact walk_string. Qed.
-Print Assumptions C13_walk_string_partial.
+(** end to end for a struct type *)
+Theorem C13_struct_renders_partial : forall (tok : ev -> bytes) nm n fs vs d,
+  walk_ok (CStruct nm n fs) -> descriptor_of (CStruct nm n fs) = Ok d ->
+  wfv (CStruct nm n fs) (VStruct vs) -> fits (CStruct nm n fs) (VStruct vs) -> wkv (CStruct nm n fs) (VStruct vs) ->
+  let data := enc (CStruct nm n fs) (VStruct vs) [] in
+  let w := walk d data in
+  w_out w = Ok (len data) /\
+  (do j <- o_run jout_init (map (oop_of tok) (w_ev w)); o_done j)
+  = Ok (render 0 false (vtree tok (CStruct nm n fs) (VStruct vs)) ++ [10]).
+Proof. exact walk_renders_struct. Qed.
+Print Assumptions C13_struct_renders_partial.
 
-Theorem C13_walk_bool_partial : forall b d, descriptor_of CBool = Ok d ->
-  walk d (enc CBool (VBool b) []) = wok [EvBool b] 1.
-Proof. exact walk_bool. Qed.
-Print Assumptions C13_walk_bool_partial.
+(** the root's field index, name and explicit-presence flag play no part in
+    the walk (so a Descriptor embedded as a field or pointer target walks alike) *)
+Theorem C13_root_attributes_ignored : forall i n d data,
+  walk (with_field i n d) data = walk d data /\ walk (with_explicit d) data = walk d data.
+Proof. intros. split; [apply walk_with_field|apply walk_with_explicit]. Qed.
+Print Assumptions C13_root_attributes_ignored.
 
-(** non-vacuity and a composite example evaluated in the model *)
+(** non-vacuity: a composite codec of the fragment with a value meeting every
+    hypothesis, and its walk evaluated in the model *)
 Example C13_ex :
-  let c := CStruct [] 2 [mkfld 0 1 [65] (CInt 64); mkfld 1 2 [66] (CSliceLen CString)] in
+  let c := CStruct [] 3 [mkfld 0 1 [65] (CInt 64); mkfld 1 2 [66] (CSliceLen CString);
+                         mkfld 2 3 [67] (CPtr (CStruct [] 1 [mkfld 0 1 [68] CBool]))] in
+  let v := VStruct [VInt (-3); VSlice [VStr [104]; VStr []]; VPtr (Some (VStruct [VBool true]))] in
+  walk_ok c /\ wfv c v /\ wkv c v /\
   match descriptor_of c with
-  | Ok d => w_ev (walk d (enc c (VStruct [VInt (-3); VSlice [VStr [104]; VStr []]]) []))
+  | Ok d => w_ev (walk d (enc c v []))
   | _ => []
   end
-  = [EvStartObj; EvName [65]; EvInt (-3); EvName [66]; EvStartArr; EvStr [104]; EvStr []; EvEndArr; EvEndObj].
-Proof. vm_compute. reflexivity. Qed.
+  = [EvStartObj; EvName [65]; EvInt (-3); EvName [66]; EvStartArr; EvStr [104]; EvStr []; EvEndArr;
+     EvName [67]; EvStartObj; EvName [68]; EvBool true; EvEndObj; EvEndObj].
+Proof.
+  cbv zeta. split; [|split; [|split]].
+  - cbn. unfold bits_ok. repeat split; try lia; auto; repeat constructor; cbn; intuition discriminate.
+  - cbn. unfold int_range. cbn. repeat split; try lia; auto.
+  - cbn. unfold two63. repeat split; try lia; auto.
+  - vm_compute. reflexivity.
+Qed.
